@@ -27,8 +27,16 @@ IsThirdPartyInvite(e) == e.type = "m.room.member" /\ e.membership = "invite" /\ 
 ServersToCheck(e, v) ==
   (IF IsThirdPartyInvite(e) THEN {} ELSE {e.senderServer})
   \cup (IF RV(v).check_eventid_server THEN {e.idServer} ELSE {})
-  \cup (IF RV(v).check_jauth_server /\ e.hascontent /\ "join_authorised_via_users_server" \in DOMAIN e.content
+  \* "if the event is an m.room.member event with membership join and has join_authorised_via_users_server": the key on any
+  \* other event demands nothing
+  \cup (IF RV(v).check_jauth_server /\ e.type = "m.room.member" /\ e.membership = "join" /\ e.hascontent
+           /\ "join_authorised_via_users_server" \in DOMAIN e.content
         THEN {e.jauthServer} ELSE {})
+
+\* the reading ruma implements (and one of its pinned tests demands): the key on ANY event names a further required signer
+ServersToCheckAnyEvent(e, v) ==
+  ServersToCheck(e, v) \cup (IF RV(v).check_jauth_server /\ e.hascontent /\ "join_authorised_via_users_server" \in DOMAIN e.content
+                             THEN {e.jauthServer} ELSE {})
 
 \* hash_and_sign_event by server s: `hashes` := content hash, signature of s := signed pre-image
 WithHash(e) == [e EXCEPT !.top = Minus(e.top, {"hashes"}) @@ [x \in {"hashes"} |-> ContentHashPre(e)]]
@@ -40,6 +48,11 @@ HashAndSign(e, sigs, s, v) ==
 Verify(e, sigs, v) ==
   IF "hashes" \notin DOMAIN e.top THEN "err"
   ELSE IF \E s \in ServersToCheck(e, v) : sigs[s] = NoSig \/ sigs[s] # SignedPre(e, v) THEN "err"
+  ELSE IF e.top["hashes"] = ContentHashPre(e) THEN "all" ELSE "signatures"
+
+VerifyAnyEvent(e, sigs, v) ==
+  IF "hashes" \notin DOMAIN e.top THEN "err"
+  ELSE IF \E s \in ServersToCheckAnyEvent(e, v) : sigs[s] = NoSig \/ sigs[s] # SignedPre(e, v) THEN "err"
   ELSE IF e.top["hashes"] = ContentHashPre(e) THEN "all" ELSE "signatures"
 
 \* a redacted copy as a server would store it (signatures and hashes are kept top-level keys)
